@@ -21,10 +21,10 @@ type RegOp struct {
 	Kind  string `json:"kind"` // reg | vote | block
 	Val   int    `json:"val"`  // validator index; == number of validators means "not a validator"
 	Chain int    `json:"chain"`
-	EKey  int    `json:"ekey"` // external key from a small pool
-	Orch  int    `json:"orch"` // orchestrator account from a small pool (some are validators' own accounts)
+	EKey  int    `json:"ekey"`            // external key from a small pool
+	Orch  int    `json:"orch"`            // orchestrator account from a small pool (some are validators' own accounts)
 	Spell int    `json:"spell,omitempty"` // spelling of the external address in the message: 0 checksummed, 1 lower case, 2 upper case, 3 "0X" prefix, 4 no prefix
-	Sig   int    `json:"sig"`  // 0 good, 1 future nonce, 2 stale nonce, 3 other key signs, 4 signed for another validator, 5 garbage, 6 replay of the last good signature
+	Sig   int    `json:"sig"`             // 0 good, 1 future nonce, 2 stale nonce, 3 other key signs, 4 signed for another validator, 5 garbage, 6 replay of the last good signature
 }
 
 type RegCase struct {
